@@ -71,9 +71,17 @@ class C12(Prop):
         for s in range(nseeds):
             native = s % 2 == 1
             rows, _ = S.gen_sheet(srng, native=native, max_tables=2, extras=(s % 4 < 2))
-            rows = rows[:14]
+            rows = ([["**head"], ["all"], ["p", "q"], ["m", "m"], [{"i": 1}, {"i": 2}] if native else ["1", "2"], []]
+                    + rows[:14] + [[], ["**tail"], ["all"], ["z"], ["-"], [{"i": 1}] if native else ["1"]])
             for i in range(len(rows) + 1):
                 cases.append({"rows": rows[:i], "cfg": {"raising": True, "form": "pdtable"}, "fault": f"truncate@{i}"})
+            for i in range(len(rows)):
+                for raising in (True, False):
+                    cfg = {"raising": raising, "form": "pdtable"}
+                    cases.append({"rows": rows[:i] + rows[i + 1:], "cfg": cfg, "fault": f"delete-row@{i}", "tuples": native})
+                    cases.append({"rows": rows[:i] + [rows[i]] + rows[i:], "cfg": cfg, "fault": f"duplicate-row@{i}", "tuples": native})
+                    if len(rows[i]) > 1:
+                        cases.append({"rows": rows[:i] + [rows[i][:-1]] + rows[i + 1:], "cfg": cfg, "fault": f"shorten-row@{i}", "tuples": native})
             for i, r in enumerate(rows):
                 for j in range(len(r)):
                     for fc in S.FAULT_CELLS:
